@@ -611,3 +611,31 @@ func DecodeTargets() []*big.Int {
 
 	return out
 }
+
+// HalfZeroTargets returns stored values < m all of whose limbs have a zero low half (resp. a zero high half): exactly
+// the values that a zero / equality test narrowed to 32 bits takes for zero.
+func HalfZeroTargets(m *big.Int) []*big.Int {
+	var out []*big.Int
+
+	for i := 1; i <= 48; i++ {
+		var hi, lo [4]uint64
+
+		for k := 0; k < 4; k++ {
+			x := (uint64(0x9e3779b97f4a7c15)*uint64(i*4+k+1) ^ uint64(i)<<17) | 1
+			hi[k] = x << 32
+			lo[k] = x >> 32
+		}
+
+		if i%6 == 0 {
+			hi[1], lo[2] = 0, 0
+		}
+
+		for _, l := range [][4]uint64{hi, lo} {
+			if v := oracle.FromLimbs(l); v.Sign() > 0 && v.Cmp(m) < 0 {
+				out = append(out, v)
+			}
+		}
+	}
+
+	return out
+}
